@@ -17,12 +17,11 @@ fn binders(ui: usize) -> CanonicalVarKinds<VI> {
         WithKind::new(VariableKind::Ty(TyVariableKind::General), UniverseIndex { counter: ui }),
     )
 }
-/// `id == 0`: the identity substitution `[^0.0]`; otherwise the ground substitution
-/// `[Foreign(id)]`. Ids are concrete per class: `combine` depends on the candidates only through
+/// The identity substitution `[^0.0]` or the ground substitution `[Foreign(id)]`. Ids are concrete per class: `combine` depends on the candidates only through
 /// equalities, so the classes (same id / different ids) are a complete case split, and reading
 /// symbolic ids back out of `Solution` (a widest-variant read, DESIGN.md §2.2a) does not finish.
-fn canon_subst(id: u64, ui: usize) -> Canonical<Substitution<VI>> {
-    let t = if id == 0 {
+fn canon_subst(identity: bool, id: u64, ui: usize) -> Canonical<Substitution<VI>> {
+    let t = if identity {
         ty(TyKind::BoundVar(BoundVar::new(DebruijnIndex::INNERMOST, 0)))
     } else {
         foreign(id)
@@ -48,16 +47,16 @@ pub const N_KINDS: usize = 9;
 fn mk(kind: usize, id: u64, ui: usize) -> Solution<VI> {
     match kind {
         0 | 1 | 2 | 8 => {
-            let cs = canon_subst(if kind == 2 || kind == 8 { id } else { 0 }, ui);
+            let cs = canon_subst(!(kind == 2 || kind == 8), id, ui);
             Solution::Unique(Canonical {
                 value: ConstrainedSubst { subst: cs.value, constraints: constraints(kind == 1 || kind == 8) },
                 binders: cs.binders,
             })
         }
-        3 => Solution::Ambig(Guidance::Definite(canon_subst(0, ui))),
-        4 => Solution::Ambig(Guidance::Definite(canon_subst(id, ui))),
-        5 => Solution::Ambig(Guidance::Suggested(canon_subst(id, ui))),
-        6 => Solution::Ambig(Guidance::Suggested(canon_subst(0, ui))),
+        3 => Solution::Ambig(Guidance::Definite(canon_subst(true, id, ui))),
+        4 => Solution::Ambig(Guidance::Definite(canon_subst(false, id, ui))),
+        5 => Solution::Ambig(Guidance::Suggested(canon_subst(false, id, ui))),
+        6 => Solution::Ambig(Guidance::Suggested(canon_subst(true, id, ui))),
         _ => Solution::Ambig(Guidance::Unknown),
     }
 }
@@ -70,13 +69,28 @@ fn definite_part(s: &Solution<VI>) -> Option<Canonical<Substitution<VI>>> {
     }
 }
 
-fn check(ka: usize, ida: u64, kb: usize, idb: u64) {
-    let ui = sym::usize(); // both candidates are canonical over the same binders
+/// `laws`: 0 = all assertions in one query; 1 = order independence only; 2 = "never claims more"
+/// only (equal candidates make every deep comparison traverse both terms; the assertions are then
+/// decided in two queries instead of one, which did not finish within 300 s).
+fn check(ka: usize, ida: u64, kb: usize, idb: u64, laws: u8) {
+    // Both candidates are canonical over the same binders. What is symbolic: for classes that are
+    // decided in one query the binder universe; for the split classes (equal candidates, the
+    // constrained-identity candidate) the shared id of the ground substitutions instead - with both
+    // symbolic the deep comparisons do not finish.
+    let same_ids = ida == idb;
+    let (ui, x) = if laws == 0 { (sym::usize(), 1u64) } else { (0usize, sym::u64()) };
+    let ida = if ida == 1 { x } else { x ^ 1 };
+    let idb = if idb == 1 { x } else { x ^ 1 };
     let a = mk(ka, ida, ui);
     let b = mk(kb, idb, ui);
     let ab = a.clone().combine(b.clone(), I);
-    let ba = b.clone().combine(a.clone(), I);
-    assert!(ab == ba, "C13/C17: Solution::combine depends on the argument order");
+    if laws != 2 {
+        let ba = b.clone().combine(a.clone(), I);
+        assert!(ab == ba, "C13/C17: Solution::combine depends on the argument order");
+    }
+    if laws == 1 {
+        return;
+    }
     let trivial_a = a.is_trivial_and_always_true(I);
     let trivial_b = b.is_trivial_and_always_true(I);
     match &ab {
@@ -101,20 +115,20 @@ fn check(ka: usize, ida: u64, kb: usize, idb: u64) {
         }
         Solution::Ambig(Guidance::Unknown) => {}
     }
-    if ka == kb && ida == idb {
-        // idempotence
-        assert!(a.clone().combine(a.clone(), I) == a, "C17: combine(a, a) != a");
+    if ka == kb && same_ids {
+        // idempotence: the two candidates are equal
+        assert!(ab == a, "C17: combine(a, a) != a");
     }
 }
 
-fn pair(ka: usize, ida: u64, kb: usize, idb: u64) {
-    check(ka, ida, kb, idb);
+fn pair(ka: usize, ida: u64, kb: usize, idb: u64, laws: u8) {
+    check(ka, ida, kb, idb, laws);
     cover!(true);
 }
 
 macro_rules! pairs {
-    ($($name:ident: $a:expr, $ia:expr, $b:expr, $ib:expr;)*) => {$(
-        vharness!($name, 6, { pair($a, $ia, $b, $ib) });
+    ($($name:ident: $a:expr, $ia:expr, $b:expr, $ib:expr, $laws:expr;)*) => {$(
+        vharness!($name, 6, { pair($a, $ia, $b, $ib, $laws) });
     )*};
 }
 include!("c13_pairs.rs");
